@@ -8,7 +8,7 @@ from fractions import Fraction
 import numpy as np
 
 from geolib import call_impl
-from proto import ET, dec_q, proj_close_nn, run_driver
+from proto import ET, dec_q, dec_tens, proj_close, proj_close_nn, run_driver
 from trlib import fdet
 
 ID = "C13"
@@ -101,6 +101,15 @@ def conic_stream(ctx, n):
             ctx.count("from_crossratio")
             if c2[0] != "ok" or not proj_close_nn(A, np.asarray(c2[1].array), 1e-7):
                 ctx.disagree("C13:from_crossratio", desc, "the same conic as from_points", c2[1:3] if c2[0] != "ok" else np.asarray(c2[1].array).tolist(), replay=[desc])
+            # the Lean model of the construction (Geo.Constructions.crM, about which T13_from_crossratio_* are) with a rational cross ratio
+            crq = Fraction(rng.choice([2, -1, 3, 5, -4]), rng.choice([1, 2, 3]))
+            ptsq = [[Fraction(float(x)).limit_denominator(64) for x in np.asarray(p.array, dtype=float)] for p in P[:4]]
+            ans = run_driver([f"m.crconic {crq.numerator}/{crq.denominator} " + " ".join(ET((3,), v).enc() for v in ptsq)])[0].split(" ")
+            c3 = call_impl(lambda: g.Conic.from_crossratio(float(crq), P[0], P[1], P[2], P[3]))
+            ctx.count("from_crossratio:model")
+            if ans[0] != "ok" or c3[0] != "ok" or not proj_close(dec_tens(ans[1]), np.asarray(c3[1].array), rtol=1e-8):
+                ctx.disagree("C13:from_crossratio:model-vs-code", desc + f" cr={crq}", " ".join(ans)[:200],
+                             c3[1:3] if c3[0] != "ok" else np.asarray(c3[1].array).tolist(), replay=[desc])
         # from_tangent: tangent at the fifth point (polar), four other points
         if k % 2 == 0:
             t = A @ np.asarray(P[4].array, dtype=float)
